@@ -87,6 +87,12 @@ def gen_trees(rng, tier):
         {'t': 'h', 'a': {'t': 'h', 'a': A}},
         {'t': 'gram', 'a': {'t': 'add', 'a': A, 'b': B}},
         {'t': 'comp', 'a': {'t': 'h', 'a': B}, 'b': {'t': 'mulr', 's': {'k': 'py', 'v': [[0, 0]]}, 'a': A}},   # KF-03
+        # sums whose first summand returns its input (identity): adjoint, gram and .H of three summands
+        {'t': 'add', 'a': {'t': 'add', 'a': {'t': 'id', 'n': 2}, 'b': A}, 'b': B},
+        {'t': 'h', 'a': {'t': 'add', 'a': {'t': 'add', 'a': {'t': 'id', 'n': 2}, 'b': A}, 'b': B}},
+        {'t': 'gram', 'a': {'t': 'add', 'a': {'t': 'add', 'a': {'t': 'id', 'n': 2}, 'b': {'t': 'gram', 'a': A}}, 'b': B}},
+        {'t': 'mulr', 's': {'k': 'py', 'v': [[0, 2]]}, 'a': {'t': 'add', 'a': {'t': 'add', 'a': {'t': 'id', 'n': 2}, 'b': A}, 'b': {'t': 'h', 'a': B}}},
+        {'t': 'comp', 'a': {'t': 'add', 'a': {'t': 'id', 'n': 2}, 'b': A}, 'b': {'t': 'h', 'a': {'t': 'add', 'a': {'t': 'add', 'a': {'t': 'id', 'n': 2}, 'b': B}, 'b': A}}},
     ]
     out += [{'m': 2, 'n': 2, 'tree': t} for t in fixed]
     return out
@@ -155,6 +161,8 @@ def _dense_any(op, n, m):
         e = torch.zeros(n, dtype=torch.complex128)
         e[j] = 1
         (y,) = op(e)
+        if e.abs().sum() != 1 or e[j] != 1:
+            raise AssertionError(f'forward modified its input tensor (basis vector {j})')
         cols.append(torch.broadcast_to(y.to(torch.complex128), (m,)) if y.numel() == 1 and m != 1 else y.reshape(-1).to(torch.complex128))
     F = torch.stack(cols, 1).numpy()
     cols = []
@@ -162,6 +170,8 @@ def _dense_any(op, n, m):
         e = torch.zeros(m, dtype=torch.complex128)
         e[i] = 1
         (x,) = op.adjoint(e)
+        if e.abs().sum() != 1 or e[i] != 1:
+            raise AssertionError(f'adjoint modified its input tensor (basis vector {i})')
         cols.append(torch.broadcast_to(x.to(torch.complex128), (n,)) if x.numel() == 1 and n != 1 else x.reshape(-1).to(torch.complex128))
     G = torch.stack(cols, 1).numpy()
     return F, G
@@ -338,9 +348,17 @@ def impl_matrix(c):
         B = ops.LinearOperatorMatrix([[E(Mx) for Mx in row] for row in c['B']])
         M, ref = A + B, NA + NB
     elif op == 'mul':
-        M, ref = A * s, NA * s
+        if c['seed'] % 2:
+            fac = [complex(k + 1, k) for k in range(cc)]     # one factor per column: [A, B] * (c1, c2) = [A c1, B c2]
+            M, ref = A * fac, NA @ np.kron(np.diag(fac), np.eye(n))
+        else:
+            M, ref = A * s, NA * s
     elif op == 'rmul':
-        M, ref = s * A, s * NA
+        if c['seed'] % 2:
+            fac = [complex(k + 1, -k) for k in range(r)]     # one factor per row
+            M, ref = fac * A, np.kron(np.diag(fac), np.eye(n)) @ NA
+        else:
+            M, ref = s * A, s * NA
     elif op == 'matmul':
         B = ops.LinearOperatorMatrix([[E(Mx) for Mx in row] for row in c['B']])
         M, ref = A @ B.H, NA @ NB.conj().T
@@ -387,6 +405,8 @@ def gen_gram(rng, tier):
             from props import C03
             c = C03.gen_fourier(rng, 'quick')[0]
             c['cls'] = 'FourierOp'
+            # the Toeplitz gram uses the exact non-uniform DFT kernel: compare at the accuracy of the default Kaiser-Bessel kernel
+            c.pop('kbwidth', None), c.pop('numpoints', None)
             out.append(c)
     return out
 
